@@ -22,11 +22,12 @@ import (
 
 // snapshot is everything a removal must leave alone (or remove).
 type snapshot struct {
-	refs   map[string]string // every ref of the repository -> hash
-	config string            // .git/config, bytes
-	clocks string
-	frame  View // what the cache serves about everything but the target
-	full   View // what the cache serves, target included
+	refs     map[string]string // every ref of the repository -> hash
+	config   string            // .git/config, bytes
+	clocks   string
+	selected string // the bug / identity chosen with `select`
+	frame    View   // what the cache serves about everything but the target
+	full     View   // what the cache serves, target included
 }
 
 func (m *model) snap() snapshot {
@@ -40,6 +41,7 @@ func (m *model) snap() snapshot {
 	cfg, _ := os.ReadFile(filepath.Join(m.dir, "A", ".git", "config"))
 	s.config = string(cfg)
 	s.clocks = strings.Join(world.ClockValues(filepath.Join(m.dir, "A", ".git")), ",")
+	s.selected = m.selection()
 	s.frame = FrameView(m.c, m.target)
 	s.full = FrameView(m.c, "")
 	return s
@@ -193,6 +195,9 @@ func (m *model) remove(route string) (string, []xstate.Violation, error) {
 		if after.clocks != before.clocks {
 			add("second-removal-changes-clocks/"+route, "clocks before %s after %s", before.clocks, after.clocks)
 		}
+		if after.selected != before.selected {
+			add("second-removal-changes-selection/"+route, "selection before %q after %q", before.selected, after.selected)
+		}
 		k, d, repaired, err := m.changed(before.full, after.full, route != "rm-cache", "")
 		if err != nil {
 			return "", nil, err
@@ -261,6 +266,9 @@ func (m *model) remove(route string) (string, []xstate.Violation, error) {
 	}
 	if after.clocks != before.clocks {
 		add("clocks-changed/"+route, "clocks before %s after %s", before.clocks, after.clocks)
+	}
+	if after.selected != before.selected {
+		add("selection-changed/"+route, "selection before %q after %q", before.selected, after.selected)
 	}
 	k, d, repaired, err := m.changed(before.frame, after.frame, route != "rm-cache", m.target)
 	if err != nil {
